@@ -68,6 +68,7 @@ class Frame:
 
 
 _src_cache = {}
+_fn_meta = {}      # id(FunctionDef node) -> (node, is_generator, loops, nonlocal names)
 
 
 def fn_ast(fn):
@@ -597,12 +598,18 @@ class Engine:
             raise RaiseEx(TypeError(f'{name}: unexpected keyword arguments {sorted(extra)}'))
         if isinstance(node, ast.Lambda):
             return self.ev(node.body, env, globs)
-        is_gen = any(isinstance(x, (ast.Yield, ast.YieldFrom)) for x in self._own_nodes(node))
+        meta = _fn_meta.get(id(node))
+        if meta is None or meta[0] is not node:
+            # per-definition facts (generator? loops, nonlocal names): computed once per AST node, the node is kept alive by the entry
+            meta = (node, any(isinstance(x, (ast.Yield, ast.YieldFrom)) for x in self._own_nodes(node)), loops_of(node),
+                    frozenset(n for s in self._own_nodes(node) if isinstance(s, ast.Nonlocal) for n in s.names))
+            _fn_meta[id(node)] = meta
+        is_gen = meta[1]
         if is_gen:
             env['__yields__'] = []
-        self.frames.append(Frame(name, loops_of(node)))
+        self.frames.append(Frame(name, meta[2]))
         # nonlocal/global declarations
-        env['__nonlocal__'] = {n for s in self._own_nodes(node) if isinstance(s, ast.Nonlocal) for n in s.names}
+        env['__nonlocal__'] = meta[3]
         try:
             self.ex(node.body, env, globs)
         except Ret as r:
@@ -676,7 +683,21 @@ class Engine:
                     break
         ln_c = ln.as_long() if z3.is_int_value(ln) else ln
         off_c = off.as_long() if z3.is_int_value(off) else off
-        return SBytes(b.arr, ln_c, off_c, False)
+        r = SBytes(b.arr, ln_c, off_c, False)
+        # int.to_bytes provenance survives concatenation and exact re-slicing (lemma: from_bytes(to_bytes(v)) == v)
+        if isinstance(ln_c, int) and isinstance(off_c, int) and isinstance(b.off, int):
+            for (st, k, src, order) in self._int_parts(b):
+                if st == off_c - b.off and k == ln_c:
+                    r._int_src = (src, k, order)
+        return r
+
+    @staticmethod
+    def _int_parts(b):
+        parts = list(getattr(b, '_int_parts', []))
+        src = getattr(b, '_int_src', None)
+        if src is not None and isinstance(b.n, int) and src[1] == b.n:
+            parts.append((0, b.n, src[0], src[2]))
+        return parts
 
     def bytes_concat(self, a, b):
         a, b = self.as_sbytes(a), self.as_sbytes(b)
@@ -685,7 +706,11 @@ class Engine:
         if b.concrete_len() and b.n == 0:
             return SBytes(a.arr, a.n, a.off, False)
         if a.concrete_len() and b.concrete_len():
-            return SBytes.from_elems([a.at(i) for i in range(a.n)] + [b.at(i) for i in range(b.n)])
+            r = SBytes.from_elems([a.at(i) for i in range(a.n)] + [b.at(i) for i in range(b.n)])
+            parts = self._int_parts(a) + [(st + a.n, k, src, order) for (st, k, src, order) in self._int_parts(b)]
+            if parts:
+                r._int_parts = parts
+            return r
         arr = fresh('cat', 'arr')
         n = z3.simplify(a.zn() + b.zn())
         j = z3.Int('j!cat')
@@ -752,6 +777,9 @@ class Engine:
                 if not isinstance(n, int) or signed:
                     raise Unsupported('to_bytes with symbolic length / signed')
                 v = Z(o)
+                fb = getattr(self, '_fb_src', {}).get(v.get_id())
+                if fb is not None and fb[1].n == n and fb[2] == order and z3.eq(fb[0], v):
+                    return SBytes(fb[1].arr, fb[1].n, fb[1].off, False)
                 if not self.fork(z3.And(v >= 0, v < 256 ** n)):
                     raise RaiseEx(OverflowError('int too big to convert'))
                 el = [(v / (256 ** k)) % 256 for k in range(n)]
@@ -981,7 +1009,13 @@ class Engine:
             el = [b.at(i) for i in range(b.n)]
             if order == 'big':
                 el.reverse()
-            return self.conc(Sym(z3.Sum(*[e * (256 ** k) for k, e in enumerate(el)]) if el else z3.IntVal(0)))
+            r = self.conc(Sym(z3.Sum(*[e * (256 ** k) for k, e in enumerate(el)]) if el else z3.IntVal(0)))
+            if isinstance(r, Sym):
+                # lemma: int.from_bytes(b, order).to_bytes(len(b), order) == b
+                if not hasattr(self, '_fb_src'):
+                    self._fb_src = {}
+                self._fb_src[Z(r).get_id()] = (Z(r), SBytes(b.arr, b.n, b.off, False), order)
+            return r
         if isinstance(f, (types.BuiltinMethodType, types.BuiltinFunctionType)):
             slf = getattr(f, '__self__', None)
             if f.__name__ == 'join' and args and hasattr(args[0], '__pyvc_joined__'):
